@@ -3,6 +3,25 @@ import numpy as np
 from harness.envs.base import EnvAdapter
 
 
+def _late_boards(n):
+    """Late-game boards (exponents): pairs of equal large tiles next to each other in a row or a column - 1024 + 1024 up to
+    32768 + 32768 - alone, two pairs in one line, next to small tiles, on a nearly full board."""
+    out = []
+    for e in range(9, 16):
+        b = np.zeros((n, n), np.int64)
+        b[0, 0] = b[0, 1] = e                      # a pair in the first row
+        out.append(b.copy())
+        b[n - 1, n - 1] = b[n - 2, n - 1] = e + 1 if e < 15 else e     # and a pair in the last column
+        out.append(b.copy())
+        full = (np.arange(n * n).reshape(n, n) % 5) + 1      # a nearly full board of small tiles ...
+        full[1, :2] = e                                       # ... with one large pair, then two
+        out.append(full.copy())
+        if n >= 4:
+            full[1, 2:4] = e
+            out.append(full.copy())
+    return [tuple(tuple(int(x) for x in r) for r in b) for b in out]
+
+
 class Adapter(EnvAdapter):
     name = "Game2048"
     props = ("C01", "C03", "C04", "C05", "C07", "C08", "C09", "C10", "C12")
@@ -16,8 +35,13 @@ class Adapter(EnvAdapter):
                     dict(id="n3", ctor=dict(board_size=3), episodes=6, max_steps=80),
                     # INJ: every reachable board of the 2x2 TLC model (exponents <= 6) as a start state, all 4 actions
                     dict(id="inj2", ctor=dict(board_size=2), inject=("MC_Game2048", "MC_Game2048_quick.cfg"), max_steps=1,
-                         post_terminal=0, policies=["random"], props=["C03", "C04", "C05", "C07", "C09", "C12"])]
+                         post_terminal=0, policies=["random"], props=["C03", "C04", "C05", "C07", "C09", "C12"]),
+                    # late game: merges of 1024 + 1024 ... 32768 + 32768 (hand-made boards, the real step)
+                    dict(id="late4", ctor=dict(board_size=4), inject="late", max_steps=2, post_terminal=0, policies=["masked"],
+                         props=["C03", "C04", "C05", "C07", "C08", "C09", "C12"])]
         return ([dict(id=f"n{n}", ctor=dict(board_size=n), episodes=40, max_steps=400, default_ctor=(n == 4)) for n in (2, 3, 4, 5, 6)]
+                + [dict(id=f"late{n}", ctor=dict(board_size=n), inject="late", max_steps=3, post_terminal=0, policies=["masked"],
+                        props=["C03", "C04", "C05", "C07", "C08", "C09", "C12"]) for n in (3, 4, 5)]
                 + [dict(id="inj2", ctor=dict(board_size=2), inject=("MC_Game2048", "MC_Game2048_quick.cfg"), max_steps=2,
                         post_terminal=0, policies=["random"], props=["C03", "C04", "C05", "C07", "C09", "C12"]),
                    dict(id="inj3", ctor=dict(board_size=3), inject=("MC_Game2048", "MC_Game2048_thorough.cfg"), limit=20000,
@@ -40,10 +64,13 @@ class Adapter(EnvAdapter):
         from jumanji.types import restart
 
         inject.need(Game2048, "_get_action_mask")
-        states, _ = inject.dump_states(cfg["inject"][0], cfg["inject"][1], limit=None)
-        boards = sorted({tuple(tuple(r) for r in s["board"]) for s in states})
-        if cfg.get("limit"):
-            boards = boards[:: max(1, len(boards) // cfg["limit"])]
+        if cfg["inject"] == "late":
+            boards = _late_boards(cfg["ctor"]["board_size"])
+        else:
+            states, _ = inject.dump_states(cfg["inject"][0], cfg["inject"][1], limit=None)
+            boards = sorted({tuple(tuple(r) for r in s["board"]) for s in states})
+            if cfg.get("limit"):
+                boards = boards[:: max(1, len(boards) // cfg["limit"])]
         table = jnp.asarray(np.array(boards, dtype=np.int32))
         cfg["episodes"] = len(boards)
 
